@@ -74,6 +74,11 @@ def check_ub(acc, E, s1, s2, inner, nd, sign):
         res['py:distance(only_ub)'] = core.call(E.dtw.distance, l1, l2, only_ub=True, inner_dist=name)
         res['c:distance_fast(only_ub)'] = core.call(E.dtw.distance_fast, a1, a2, only_ub=True, inner_dist=name)
         res['c:distance(use_c,only_ub)'] = core.call(E.dtw.distance, a1, a2, only_ub=True, use_c=True, inner_dist=name)
+        # the bound does not depend on the other options it is requested with
+        res['py:distance(only_ub,use_pruning)'] = core.call(E.dtw.distance, l1, l2, only_ub=True, use_pruning=True, inner_dist=name)
+        res['c:distance_fast(only_ub,use_pruning)'] = core.call(E.dtw.distance_fast, a1, a2, only_ub=True, use_pruning=True, inner_dist=name)
+        res['py:distance(only_ub,window,penalty)'] = core.call(E.dtw.distance, l1, l2, only_ub=True, window=1, penalty=0.5, inner_dist=name)
+        res['c:distance_fast(only_ub,window,penalty)'] = core.call(E.dtw.distance_fast, a1, a2, only_ub=True, window=1, penalty=0.5, inner_dist=name)
         if inner == 'sq':
             res['c:dtw_cc.ub_euclidean'] = core.call(E.dtw.dtw_cc.ub_euclidean, a1, a2)
             res['native:ub_euclidean'] = E.lib.ub_euclidean(f1, len(s1), f2, len(s2))
@@ -90,6 +95,8 @@ def check_ub(acc, E, s1, s2, inner, nd, sign):
         res['py:dtw_ndim.distance(only_ub)'] = core.call(E.dtw_ndim.distance, a1, a2, only_ub=True, inner_dist=name)
         res['c:dtw_ndim.distance_fast(only_ub)'] = core.call(E.dtw_ndim.distance_fast, a1, a2, only_ub=True, inner_dist=name)
         res['c:dtw_ndim.distance(use_c,only_ub)'] = core.call(E.dtw_ndim.distance, a1, a2, only_ub=True, use_c=True, inner_dist=name)
+        res['py:dtw_ndim.distance(only_ub,use_pruning)'] = core.call(E.dtw_ndim.distance, a1, a2, only_ub=True, use_pruning=True, inner_dist=name)
+        res['c:dtw_ndim.distance_fast(only_ub,use_pruning)'] = core.call(E.dtw_ndim.distance_fast, a1, a2, only_ub=True, use_pruning=True, inner_dist=name)
         if inner == 'sq':
             res['c:ed_cc.distance_ndim'] = core.call(E.ed.ed_cc.distance_ndim, a1, a2)
             res['c:dtw_cc.ub_euclidean_ndim'] = core.call(E.dtw.dtw_cc.ub_euclidean_ndim, a1, a2)
